@@ -4,10 +4,12 @@
 // usage: wfdriver <wfspec.json>
 //
 // Conventions (shared with spec/Flow.tla, see DESIGN.md Appendix C):
-//   source item id X        -> file in/X.txt
-//   output of a cmd process -> o/<proc>.<port>_<sig>.txt
-//   sig = ids of the inputs (ports sorted by name) joined by "-", then, if the
-//         process has params, "_" + values (param names sorted) joined by "-"
+//
+//	source item id X        -> file in/X.txt
+//	output of a cmd process -> o/<proc>.<port>_<sig>.txt
+//	sig = ids of the inputs (ports sorted by name) joined by "-", then, if the
+//	      process has params, "_" + values (param names sorted) joined by "-"
+//
 // After Run/RunTo returns the driver writes return_snapshot.json (directory
 // listing taken inside the program) and prints WFDRIVER_COMPLETED.
 package main
@@ -26,20 +28,21 @@ import (
 )
 
 type Proc struct {
-	Name    string            `json:"name"`
-	Kind    string            `json:"kind"` // src | psrc | cmd | gofunc | maptotags | substream | concat | splitter | fcomb | pcomb | selector | globber | f2p | c2p
-	Items   []string          `json:"items"`
-	Values  []string          `json:"values"`
-	Ins     []string          `json:"ins"`
-	Params  []string          `json:"params"`
-	Outs    []string          `json:"outs"`
-	Streams []string          `json:"streams"` // out-ports that stream ({os:..})
-	Joins   map[string]string `json:"joins"`   // in-port -> separator
-	Cores   int               `json:"cores"`
-	Prepend string            `json:"prepend"`
-	Arg     string            `json:"arg"`    // kind specific (path, pattern, lines per split, ...)
-	OutDir  string            `json:"outdir"` // directory prefix of outputs (default "o/")
-	Tags    map[string]string `json:"tags"`   // maptotags: tags to add (value may contain %id)
+	Name     string            `json:"name"`
+	Kind     string            `json:"kind"` // src | psrc | cmd | gofunc | maptotags | substream | concat | splitter | fcomb | pcomb | selector | globber | f2p | c2p
+	Items    []string          `json:"items"`
+	Values   []string          `json:"values"`
+	Ins      []string          `json:"ins"`
+	Params   []string          `json:"params"`
+	Outs     []string          `json:"outs"`
+	Streams  []string          `json:"streams"` // out-ports that stream ({os:..})
+	Joins    map[string]string `json:"joins"`   // in-port -> separator
+	Cores    int               `json:"cores"`
+	Prepend  string            `json:"prepend"`
+	Suffix   string            `json:"suffix"`   // appended to the standard command pattern, e.g. "&& true"
+	Arg      string            `json:"arg"`      // kind specific (path, pattern, lines per split, ...)
+	OutDir   string            `json:"outdir"`   // directory prefix of outputs (default "o/")
+	Tags     map[string]string `json:"tags"`     // maptotags: tags to add (value may contain %id)
 	Paths    []string          `json:"paths"`    // src: explicit file paths (instead of items)
 	OutPaths map[string]string `json:"outpaths"` // cmd: explicit output path patterns by port (instead of the naming scheme)
 }
@@ -55,13 +58,13 @@ type Feed struct {
 }
 
 type Spec struct {
-	Name    string   `json:"name"`
-	Max     int      `json:"max"`
-	Bufsize int      `json:"bufsize"`
-	Procs   []Proc   `json:"procs"`
-	Edges   []Edge   `json:"edges"`
-	PEdges  []Edge   `json:"pedges"`
-	Feeds   []Feed   `json:"feeds"`
+	Name     string   `json:"name"`
+	Max      int      `json:"max"`
+	Bufsize  int      `json:"bufsize"`
+	Procs    []Proc   `json:"procs"`
+	Edges    []Edge   `json:"edges"`
+	PEdges   []Edge   `json:"pedges"`
+	Feeds    []Feed   `json:"feeds"`
 	Mode     string   `json:"mode"`
 	Targets  []string `json:"targets"`
 	Patterns []string `json:"patterns"` // runtoregex: the regular expressions (targets = the names they resolve to)
@@ -198,6 +201,9 @@ func main() {
 			pat += " -p"
 			for _, q := range ps {
 				pat += " " + q + "={p:" + q + "}"
+			}
+			if p.Suffix != "" {
+				pat += " " + p.Suffix
 			}
 			if p.Arg != "" {
 				pat = p.Arg // explicit command pattern
